@@ -421,9 +421,21 @@ def batch_pair(creator):
     return c08.placeholder(creator, oracle="c13")
 
 
+def backend_errors():
+    """The real crypto engine's MAC with the backend primitives raising ValueError / TypeError /
+    UnsupportedAlgorithm, or refusing the key size: only KMIP errors may come out (anything else
+    would end in the General Failure catch-all)."""
+    from harness import c06
+    return c06.mac(oracle="c13")
+
+
 def conditions(tier):
     thorough = tier == "thorough"
     out = []
+    out.append(Cond("crypto-backend-errors-mac", "backend_errors", {},
+                    bounds="CryptographyEngine.mac: 12 algorithms, key length 3/16/20/24, the HMAC/CMAC/algorithm "
+                           "constructors behaving or raising ValueError/TypeError/UnsupportedAlgorithm", timeout=600,
+                    part="crypto-backend"))
     from harness import c08 as _c08
     for creator in _c08.CREATORS:
         out.append(Cond("batch-%s" % creator, "batch_pair", dict(creator=creator),
